@@ -194,6 +194,18 @@ func propC07(t *rapid.T) {
 		if long && i == n1/2 {
 			// a long quiet stretch so that the rescan needs several 1000-block batches
 			nq := 1100 + rapid.IntRange(0, 1200).Draw(t, "quiet")
+			// in half of the cases the quiet stretch ends just below a batch boundary of the rescan (batches
+			// of 1000 blocks) and blocks with payments follow at once, so that the wallet has history in the
+			// last block of a batch, the first block of the next one and their neighbours
+			atBoundary := rapid.Bool().Draw(t, "historyAtBatchBoundary")
+			if atBoundary {
+				target := 1000*rapid.IntRange(1, 2).Draw(t, "boundaryBatch") - rapid.IntRange(0, 2).Draw(t, "boundaryOffset")
+				if h := int(w.node.Height()); target > h+50 {
+					nq = target - h
+				} else {
+					atBoundary = false
+				}
+			}
 			for j := 0; j < nq; j++ {
 				blk := w.node.NewBlock(w.node.Tip(), nil, nil)
 				if err := w.node.Attach(blk); err != nil {
@@ -202,6 +214,13 @@ func propC07(t *rapid.T) {
 			}
 			w.announce(w.node.Tip().MsgBlock())
 			w.flag("multi-batch-rescan")
+			if atBoundary {
+				w.deliverAll(t)
+				for j := 0; j < 5; j++ {
+					w.actMine(t, true)
+				}
+				w.flag("history-at-rescan-batch-boundary")
+			}
 		}
 	}
 	w.deliverAll(t)
